@@ -40,23 +40,38 @@ def normal (mean std xi : K) : K := mean + std * xi
 /-- `_normal_to_standard(y, mean, std) = (y - mean) / std` -/
 def normalInv (mean std y : K) : K := (y - mean) / std
 
-/-- `nifty.re...lognormal_moments(mean, std)`: `none` is the `ValueError` raised `if mean <= 0.0` resp. `if std <= 0.0`;
-    `logstd = sqrt(log1p((std/mean)**2))`, `logmean = log(mean) - 0.5*logstd**2`; returns `(logmean, logstd)` -/
-def lognormalMomentsRe (mean std : K) : Option (K × K) :=
+/-- A numerically stable evaluation of `log1p v = log(1+v)` in floating point (Kahan): with `u = fl(1+v)` return `v` if `u = 1`
+    and `log(u)·v/(u−1)` otherwise — the rounding error of `u` cancels in the quotient. Over `ℝ` it *equals* `Np.log1p`
+    (`C30.log1pStable_eq`); the Float driver uses it so that the model stays comparable with `np.log1p`/`jnp.log1p` for
+    arguments down to `1e-18` (narrow log-normal priors), where the textbook form `log(1+v)` has lost every digit. -/
+def log1pStable (v : K) : K :=
+  let u := (1.0 : K) + v
+  if (u < (1.0 : K) ∨ (1.0 : K) < u) then Transc.log u * v / (u - (1.0 : K)) else v
+
+/-- `nifty.re...lognormal_moments(mean, std)` with the evaluation of `log1p` as a parameter: `none` is the `ValueError` raised
+    `if mean <= 0.0` resp. `if std <= 0.0`; `logstd = sqrt(log1p((std/mean)**2))`, `logmean = log(mean) - 0.5*logstd**2`;
+    returns `(logmean, logstd)` -/
+def lognormalMomentsReWith (l1p : K → K) (mean std : K) : Option (K × K) :=
   if mean ≤ (0 : K) then none else
   if std ≤ (0 : K) then none else
-  let logstd := Transc.sqrt (Np.log1p (sq (std / mean)))
+  let logstd := Transc.sqrt (l1p (sq (std / mean)))
   let logmean := Transc.log mean - (0.5 : K) * sq logstd
   some (logmean, logstd)
 
-/-- `nifty.cl.utilities.lognormal_moments(mean, sigma)` (`ValueError` raised `if not mean > 0` resp. `if not sigma > 0`): `logsigma = sqrt(log1p((sigma/mean)**2))`,
-    `logmean = log(mean) - logsigma**2/2` -/
-def lognormalMomentsCl (mean sigma : K) : Option (K × K) :=
+/-- `nifty.re...lognormal_moments(mean, std)`, `log1p` as NumPy documents it (`log(1+v)`) -/
+def lognormalMomentsRe (mean std : K) : Option (K × K) := lognormalMomentsReWith Np.log1p mean std
+
+/-- `nifty.cl.utilities.lognormal_moments(mean, sigma)` (`ValueError` raised `if not mean > 0` resp. `if not sigma > 0`) with the
+    evaluation of `log1p` as a parameter: `logsigma = sqrt(log1p((sigma/mean)**2))`, `logmean = log(mean) - logsigma**2/2` -/
+def lognormalMomentsClWith (l1p : K → K) (mean sigma : K) : Option (K × K) :=
   if ¬ ((0 : K) < mean) then none else
   if ¬ ((0 : K) < sigma) then none else
-  let logsigma := Transc.sqrt (Np.log1p (sq (sigma / mean)))
+  let logsigma := Transc.sqrt (l1p (sq (sigma / mean)))
   let logmean := Transc.log mean - sq logsigma / (2 : K)
   some (logmean, logsigma)
+
+/-- `nifty.cl.utilities.lognormal_moments(mean, sigma)`, `log1p` as NumPy documents it -/
+def lognormalMomentsCl (mean sigma : K) : Option (K × K) := lognormalMomentsClWith Np.log1p mean sigma
 
 /-- `_standard_to_lognormal(xi, log_mean, log_std) = exp(_standard_to_normal(xi, log_mean, log_std))`;
     also `LognormalTransform = NormalTransform(logmean, logsigma).ptw("exp")` -/
